@@ -329,7 +329,8 @@ def agg_sum_list(ps):
 def mk(name, setup, body, every=9):
     def run(e, *args):
         out = []
-        body(e, out, *args)
+        with dask.config.set(scheduler="sync"):      # Bag.take(compute=True) computes with the configured default scheduler
+            body(e, out, *args)
         return out
     return Obligation(name, setup, run, e2e=e2e_witness, e2e_every=every)
 
@@ -759,6 +760,16 @@ def ob_groupby(maxnp, maxn):
     return mk(f"groupby_tasks[np<={maxnp},n<={maxn}]", setup, body)
 
 
+class _Const:
+    """callable returning a constant tuple (keeps symbolic values out of delayed's argument traversal)"""
+
+    def __init__(self, v):
+        self.v = tuple(v)
+
+    def __call__(self):
+        return self.v
+
+
 def _group_len(kv):
     return (kv[0], len(kv[1]))
 
@@ -774,10 +785,12 @@ def ob_join(maxnp, maxn):
         def ref(other):
             return [(o, s) for s in xs for o in other if conc(key_mod2(o)) == conc(key_mod2(s))]
 
-        out.append(decide(e, "join(list)", lambda: comp(b.join(list(ws), key_mod2)), lambda: ref(ws), how="multiset")[0])
-        out.append(decide(e, "join(list, on_self, on_other)", lambda: comp(b.join(ws[:1], key_mod2, key_mod2)), lambda: ref(ws[:1]), how="multiset")[0])
+        # a list operand is tokenized (pickled), so it is concrete here; bag / delayed operands carry symbolic elements
+        out.append(decide(e, "join(list)", lambda: comp(b.join([4, 7, 10], key_mod2)), lambda: ref([4, 7, 10]), how="multiset")[0])
+        out.append(decide(e, "join(tuple, on_self, on_other)", lambda: comp(b.join((3,), key_mod2, half)),
+                          lambda: [(o, s) for s in xs for o in (3,) if half(o) == conc(key_mod2(s))], how="multiset")[0])
         out.append(decide(e, "join(single-partition bag)", lambda: comp(b.join(mkbag("w", [ws]), key_mod2)), lambda: ref(ws), how="multiset")[0])
-        out.append(decide(e, "join(delayed)", lambda: comp(b.join(delayed(tuple)(DataNode("wd", list(ws))), key_mod2)), lambda: ref(ws), how="multiset")[0])
+        out.append(decide(e, "join(delayed)", lambda: comp(b.join(delayed(_Const(ws))(), key_mod2)), lambda: ref(ws), how="multiset")[0])
         got = attempt(lambda: b.join(mkbag("w2", [ws[:1], ws[1:]]), key_mod2))
         e.check(is_raised(got) and got[1] == "NotImplementedError", "join with a multi-partition bag did not raise NotImplementedError")
 
